@@ -20,7 +20,9 @@ def run(tier):
                           ("ptr_driver_exact", ["ptr_driver.cpp"], ["-DVM_EXACT_SAME_SANDBOX"], "-O2"),
                           ("ptr_driver_exact_last", ["ptr_driver.cpp"], ["-DVM_EXACT_SAME_SANDBOX", "-DSBX_LAST"], "-O2"),
                           # ... and when the sandbox under test is the only live sandbox of its type
-                          ("ptr_driver_exact_alone", ["ptr_driver.cpp"], ["-DVM_EXACT_SAME_SANDBOX", "-DSBX_ALONE"], "-O2")])
+                          ("ptr_driver_exact_alone", ["ptr_driver.cpp"], ["-DVM_EXACT_SAME_SANDBOX", "-DSBX_ALONE"], "-O2"),
+                          # a sandbox of 1 KiB in the middle of a host page: leaving the sandbox does not mean leaving the page
+                          ("ptr_driver_small", ["ptr_driver.cpp"], ["-DREGION_BITS=10"], "-O2")])
     from concurrent.futures import ThreadPoolExecutor
 
     def one(abi):
@@ -32,8 +34,8 @@ def run(tier):
         for e in evs:
             e["abi"] = abi
         return evs, bd
-    with ThreadPoolExecutor(max_workers=6) as ex:
-        res = list(ex.map(one, ("wasm32", "lp16", "lp64u", "exact", "exact_last", "exact_alone")))
+    with ThreadPoolExecutor(max_workers=7) as ex:
+        res = list(ex.map(one, ("wasm32", "lp16", "lp64u", "exact", "exact_last", "exact_alone", "small")))
     events = [e for evs, _ in res for e in evs]
     bad = [b for _, bd in res for b in bd]
     combos = set()
